@@ -9,8 +9,10 @@
    maskers), all rational parameter vectors.  The evaluator has no weight / input argument (structural).
    Differentiability itself is OBSERVED through torch.autograd by the check; what is proved here is the derivative
    of the model: forward-mode AD over dual numbers Q[eps] of the same evaluators, torch.abs' = sign (0 at 0),
-   straight-through estimators = 1.  MPS / SuperNet: mixtures affine in each coefficient vector with the branch
-   cost as derivative; ODiMO: the parallel-accelerator reduction lies between min and max branch latency. *)
+   straight-through estimators = 1 (GAP8: value = floor-based cost, derivative = derivative of the un-floored expression).
+   Strict sign: a general criterion over every DAG of the model + instances for params/ops and GAP8.
+   MPS / SuperNet: mixtures affine in each coefficient vector with the branch cost as derivative, and through the
+   softmax (abstract positive increasing g): sign of the gradient = sign of (branch cost - current cost); ODiMO: the parallel-accelerator reduction lies between min and max branch latency. *)
 From Coq Require Import QArith ZArith List Bool.
 Import ListNotations.
 Require Import Plinio.Base.Qx Plinio.Model.Masks Plinio.Model.CostGrad Plinio.Proofs.CostGrad.
@@ -83,22 +85,55 @@ Theorem C12_pit_grad_frozen_zero : forall (n : net std) m i,
   m_frozen (nth m (n_maskers n) dflt_masker) = true -> dd (d_pit_cost d_std_f (PAlpha m i) n) == 0.
 Proof. exact pit_grad_frozen_zero. Qed.
 
-(* FULL statement wanted: every trainable, non keep-alive element x <> 0 of every network and every built-in spec has
-   sign(x) * d cost / d x > 0.  PROVED (partial): params / ops formulas; a features-mask element of a masker that is the
-   output masker of at least one non-depthwise layer with positive output size and cin * k + bias > 0; a
-   receptive-field / dilation element of any Conv1d layer with positive sizes.  Missing: elements of a masker used
-   only by depthwise layers / only as somebody's input, and the GAP8 formula (observed by the check). *)
-Theorem C12_pit_grad_pos_partial : forall (n : net std) (m i : nat) (l : layer std),
+(* ---------------------------------------------------------------- strict sign: the general criterion *)
+(* For EVERY network of the model (any list of layers = any DAG: shared maskers, affine inputs through flatten /
+   concat calculators) and every dual cost function df that keeps "value >= 0, sign * derivative >= 0":
+   if SOME layer's cost dual is strict in the seeded element, so is the whole cost. *)
+Theorem C12_pit_grad_strict_criterion : forall St (df : St -> dual -> dual -> dual -> dual) (ok : St -> Prop),
+  (forall s st a b c, ok st -> dgood s a -> dgood s b -> dgood s c -> dgood s (df st a b c)) ->
+  forall (n : net St) (w : pid) (li : nat) (l : layer St),
+  Forall (fun l => ok (l_s l)) (n_layers n) -> wf_net n ->
+  nth_error (n_layers n) li = Some l ->
+  dstrict (qsgn (pval n w)) (d_layer_cost df w (n_maskers n) (li, l)) ->
+  0 < qsgn (pval n w) * dd (d_pit_cost df w n).
+Proof. exact pit_grad_strict_gen. Qed.
+
+(* which layer arguments are strict: a non keep-alive, non-zero element of a trainable features mask makes the
+   out_eff of its masker strict, and the in_eff of EVERY consumer whose affine input contains that masker with a
+   positive multiplier (flatten multipliers and concatenations are inside the affine form) *)
+Theorem C12_mask_eff_strict : forall St (n : net St) m i,
+  m_frozen (nth m (n_maskers n) dflt_masker) = false ->
+  (S i < length (m_alpha (nth m (n_maskers n) dflt_masker)))%nat -> ~ pval n (PAlpha m i) == 0 ->
+  dstrict (qsgn (pval n (PAlpha m i))) (d_mask_eff (PAlpha m i) (n_maskers n) m).
+Proof. intros St. exact (@mask_eff_strict St). Qed.
+Theorem C12_in_eff_strict : forall St (n : net St) m i a,
+  m_frozen (nth m (n_maskers n) dflt_masker) = false ->
+  (S i < length (m_alpha (nth m (n_maskers n) dflt_masker)))%nat -> ~ pval n (PAlpha m i) == 0 ->
+  wf_affine a -> (exists mult, In (mult, m) (snd a) /\ 0 < mult) ->
+  dstrict (qsgn (pval n (PAlpha m i))) (d_in_eff (PAlpha m i) (n_maskers n) a).
+Proof. intros St. exact (@in_eff_strict St). Qed.
+
+(* the "other arguments" are positive on every well-shaped network *)
+Theorem C12_sizes_positive :
+  (forall ms j, m_alpha (nth j ms dflt_masker) <> [] -> 1 <= mask_eff ms j) /\
+  (forall t, shaped_tmask t -> 0 < k_eff t) /\
+  (forall ms a, wf_affine a -> (0 < fst a \/ exists mult j, In (mult, j) (snd a) /\ 0 < mult /\ 0 < mask_eff ms j) -> 0 < in_eff ms a).
+Proof. split; [exact mask_eff_pos|split; [exact k_eff_pos|exact in_eff_pos]]. Qed.
+
+(* params / ops (+ no-bias) formulas.  alpha_feeds ms m l: layer l is strictly increasing in the size masker m feeds --
+   m is the OUTPUT masker of a non-depthwise layer, or m occurs in the INPUT of l (this covers maskers used only by
+   depthwise layers and maskers that are only somebody's input), the other sizes being positive. *)
+Theorem C12_pit_grad_pos : forall (n : net std) m i l,
   wf_net n -> Forall (fun l => wf_std (l_s l)) (n_layers n) ->
   m_frozen (nth m (n_maskers n) dflt_masker) = false ->
   (S i < length (m_alpha (nth m (n_maskers n) dflt_masker)))%nat ->
   ~ pval n (PAlpha m i) == 0 ->
-  In l (n_layers n) -> l_mask l = m -> s_dw (l_s l) = false -> 0 < s_osz (l_s l) ->
-  0 < in_eff (n_maskers n) (l_in l) * (k_eff (l_time l) * s_kc (l_s l)) + s_b (l_s l) ->
+  In l (n_layers n) -> alpha_feeds (n_maskers n) m l ->
   0 < qsgn (pval n (PAlpha m i)) * dd (d_pit_cost d_std_f (PAlpha m i) n).
-Proof. exact pit_grad_pos_partial. Qed.
+Proof. exact pit_grad_pos. Qed.
 
-Theorem C12_pit_grad_pos_beta_partial : forall (n : net std) (li i : nat) (l : layer std) (t : tmask),
+(* receptive-field / dilation elements of any Conv1d layer with positive sizes (depthwise: C12_pit_grad_pos_time_dw) *)
+Theorem C12_pit_grad_pos_beta : forall (n : net std) (li i : nat) (l : layer std) (t : tmask),
   wf_net n -> Forall (fun l => wf_std (l_s l)) (n_layers n) ->
   nth_error (n_layers n) li = Some l -> l_time l = Some t ->
   (1 <= t_K t)%nat -> length (t_beta t) = t_K t -> length (t_gamma t) = gamma_len (t_K t) ->
@@ -107,8 +142,7 @@ Theorem C12_pit_grad_pos_beta_partial : forall (n : net std) (li i : nat) (l : l
   0 < mask_eff (n_maskers n) (l_mask l) -> 0 < in_eff (n_maskers n) (l_in l) ->
   0 < qsgn (pval n (PBeta li i)) * dd (d_pit_cost d_std_f (PBeta li i) n).
 Proof. exact pit_grad_pos_beta. Qed.
-
-Theorem C12_pit_grad_pos_gamma_partial : forall (n : net std) (li i : nat) (l : layer std) (t : tmask),
+Theorem C12_pit_grad_pos_gamma : forall (n : net std) (li i : nat) (l : layer std) (t : tmask),
   wf_net n -> Forall (fun l => wf_std (l_s l)) (n_layers n) ->
   nth_error (n_layers n) li = Some l -> l_time l = Some t ->
   (1 <= t_K t)%nat -> length (t_beta t) = t_K t -> length (t_gamma t) = gamma_len (t_K t) ->
@@ -117,6 +151,45 @@ Theorem C12_pit_grad_pos_gamma_partial : forall (n : net std) (li i : nat) (l : 
   0 < mask_eff (n_maskers n) (l_mask l) -> 0 < in_eff (n_maskers n) (l_in l) ->
   0 < qsgn (pval n (PGamma li i)) * dd (d_pit_cost d_std_f (PGamma li i) n).
 Proof. exact pit_grad_pos_gamma. Qed.
+Theorem C12_pit_grad_pos_time_dw : forall (n : net std) (w : pid) (li : nat) (l : layer std),
+  wf_net n -> Forall (fun l => wf_std (l_s l)) (n_layers n) ->
+  nth_error (n_layers n) li = Some l -> s_dw (l_s l) = true ->
+  dstrict (qsgn (pval n w)) (d_k_eff w li (l_time l)) ->
+  0 < s_osz (l_s l) -> 0 < s_kc (l_s l) -> 0 < in_eff (n_maskers n) (l_in l) ->
+  0 < qsgn (pval n w) * dd (d_pit_cost d_std_f w n).
+Proof. exact pit_grad_pos_time_dw. Qed.
+
+(* the earlier (partial) names, kept as corollaries *)
+Corollary C12_pit_grad_pos_partial : forall (n : net std) (m i : nat) (l : layer std),
+  wf_net n -> Forall (fun l => wf_std (l_s l)) (n_layers n) ->
+  m_frozen (nth m (n_maskers n) dflt_masker) = false ->
+  (S i < length (m_alpha (nth m (n_maskers n) dflt_masker)))%nat ->
+  ~ pval n (PAlpha m i) == 0 ->
+  In l (n_layers n) -> l_mask l = m -> s_dw (l_s l) = false -> 0 < s_osz (l_s l) ->
+  0 < in_eff (n_maskers n) (l_in l) * (k_eff (l_time l) * s_kc (l_s l)) + s_b (l_s l) ->
+  0 < qsgn (pval n (PAlpha m i)) * dd (d_pit_cost d_std_f (PAlpha m i) n).
+Proof. intros n m i l A B C D E F G H I J. apply (C12_pit_grad_pos n m i l A B C D E F). split; [exact I|left; auto]. Qed.
+
+(* ---------------------------------------------------------------- GAP8: the straight-through derivative *)
+(* value component = the floor-based cost (C12_dual_value_gap8), derivative component = derivative of the un-floored
+   expression (FloorSTE.backward returns grad_output): this is what autograd gives where the cost is a step function *)
+Theorem C12_pit_grad_sign_gap8 : forall (n : net g8) (w : pid),
+  wf_net n -> Forall (fun l => wf_g8 (l_s l)) (n_layers n) -> 0 <= qsgn (pval n w) * dd (d_pit_cost d_gap8_f w n).
+Proof. exact pit_grad_sign_gap8. Qed.
+Theorem C12_pit_grad_zero_gap8 : forall (n : net g8),
+  (forall w, pval n w == 0 -> dd (d_pit_cost d_gap8_f w n) == 0) /\
+  (forall m i, S i = length (m_alpha (nth m (n_maskers n) dflt_masker)) -> dd (d_pit_cost d_gap8_f (PAlpha m i) n) == 0) /\
+  (forall m i, m_frozen (nth m (n_maskers n) dflt_masker) = true -> dd (d_pit_cost d_gap8_f (PAlpha m i) n) == 0).
+Proof. intro n. split; [exact (pit_grad_zero_at_zero_gap8 n)|split; [exact (pit_grad_keepalive_zero_gap8 n)|exact (pit_grad_frozen_zero_gap8 n)]]. Qed.
+(* strictly positive wherever the un-floored expression is strictly increasing in the size the element feeds *)
+Theorem C12_pit_grad_pos_gap8 : forall (n : net g8) m i l,
+  wf_net n -> Forall (fun l => wf_g8 (l_s l)) (n_layers n) ->
+  m_frozen (nth m (n_maskers n) dflt_masker) = false ->
+  (S i < length (m_alpha (nth m (n_maskers n) dflt_masker)))%nat ->
+  ~ pval n (PAlpha m i) == 0 ->
+  In l (n_layers n) -> alpha_feeds_g8 (n_maskers n) m l ->
+  0 < qsgn (pval n (PAlpha m i)) * dd (d_pit_cost d_gap8_f (PAlpha m i) n).
+Proof. exact pit_grad_pos_gap8. Qed.
 
 (* ---------------------------------------------------------------- MPS / SuperNet / ODiMO *)
 (* SuperNetCombiner.get_cost: sum_i theta_i * c_i is affine in theta with derivative c_i >= 0 *)
@@ -139,6 +212,49 @@ Theorem C12_odimo_reduction_between : forall w c lo hi, length w = length c -> w
   Forall (fun x => lo <= x <= hi) c -> lo <= wavg w c <= hi.
 Proof. exact odimo_reduction_between. Qed.
 
+(* ---------------------------------------------------------------- through the softmax (MPS / SuperNet coefficients) *)
+(* theta = softmax(alpha / T) is modelled as g(alpha_j) / sum_k g(alpha_k) for an ABSTRACT positive, strictly increasing g
+   (exp is not rational): raising the coefficient of a branch / precision raises the cost exactly when that branch
+   costs more than the current mixture -- finite-difference form, exact *)
+Theorem C12_sm_cost_raise : forall (g : Q -> Q), (forall x, 0 < g x) -> (forall x y, x < y -> g x < g y) ->
+  forall alpha c j h, length alpha = length c -> (j < length alpha)%nat -> 0 < h ->
+  (sm_cost g alpha c < sm_cost g (upd alpha j (nth j alpha 0 + h)) c <-> sm_cost g alpha c < nth j c 0) /\
+  (sm_cost g (upd alpha j (nth j alpha 0 + h)) c < sm_cost g alpha c <-> nth j c 0 < sm_cost g alpha c).
+Proof. exact sm_cost_raise. Qed.
+(* derivative (dual numbers, quotient rule; gp = g'(alpha_j) > 0 is an input): d cost / d alpha_j =
+   gp * (c_j - cost) / sum w: NON-ZERO and positive for every coefficient whose increase raises the metric, zero only
+   when the branch costs exactly the current mixture *)
+Theorem C12_sm_grad_formula : forall w c j gp, length w = length c -> (j < length w)%nat -> Forall (fun x => 0 < x) w ->
+  dv (d_wavg (seedw w j gp) c) = wavg w c /\ dd (d_wavg (seedw w j gp) c) == gp * (nth j c 0 - wavg w c) / qsum w.
+Proof. intros. split; [apply d_wavg_value|apply d_wavg_deriv; assumption]. Qed.
+Theorem C12_sm_grad_sign : forall w c j gp, length w = length c -> (j < length w)%nat -> Forall (fun x => 0 < x) w -> 0 < gp ->
+  (0 < dd (d_wavg (seedw w j gp) c) <-> wavg w c < nth j c 0) /\
+  (dd (d_wavg (seedw w j gp) c) == 0 <-> nth j c 0 == wavg w c) /\
+  (dd (d_wavg (seedw w j gp) c) < 0 <-> nth j c 0 < wavg w c).
+Proof. exact d_wavg_deriv_sign. Qed.
+(* params_bit / ops_bit: branch cost = bits * size; with bits > 0 the derivative of the affine part w.r.t. theta_j (the
+   branch cost) is > 0, and through the softmax the coefficient of the largest precision always has a positive
+   gradient (raising it raises the metric), that of the smallest a negative one *)
+Theorem C12_bit_costs_pos : forall precs size, 0 < size -> Forall (fun b => 0 < b) precs -> Forall (fun x => 0 < x) (bit_costs precs size).
+Proof. exact bit_costs_pos. Qed.
+Theorem C12_mps_affine_deriv_pos : forall thin c j, thin <> [] -> length thin = length c -> Forall (fun x => 0 < x) thin ->
+  Forall (fun row => 0 < nth j row 0) c -> 0 < mix_cost thin (map (fun row => nth j row 0) c).
+Proof. exact mps_affine_deriv_pos. Qed.
+Theorem C12_sm_bit_cost_max_raises : forall (g : Q -> Q), (forall x, 0 < g x) -> (forall x y, x < y -> g x < g y) ->
+  forall alpha precs size j h gp,
+  length alpha = length precs -> (2 <= length precs)%nat -> (j < length precs)%nat -> 0 < size ->
+  (forall k, k <> j -> (k < length precs)%nat -> nth k precs 0 < nth j precs 0) -> 0 < h -> 0 < gp ->
+  sm_cost g alpha (bit_costs precs size) < sm_cost g (upd alpha j (nth j alpha 0 + h)) (bit_costs precs size) /\
+  0 < d_sm_cost (map g alpha) (bit_costs precs size) j gp.
+Proof. exact sm_bit_cost_max_raises. Qed.
+Theorem C12_sm_bit_cost_min_lowers : forall (g : Q -> Q), (forall x, 0 < g x) -> (forall x y, x < y -> g x < g y) ->
+  forall alpha precs size j h gp,
+  length alpha = length precs -> (2 <= length precs)%nat -> (j < length precs)%nat -> 0 < size ->
+  (forall k, k <> j -> (k < length precs)%nat -> nth j precs 0 < nth k precs 0) -> 0 < h -> 0 < gp ->
+  sm_cost g (upd alpha j (nth j alpha 0 + h)) (bit_costs precs size) < sm_cost g alpha (bit_costs precs size) /\
+  d_sm_cost (map g alpha) (bit_costs precs size) j gp < 0.
+Proof. exact sm_bit_cost_min_lowers. Qed.
+
 (* ---------------------------------------------------------------- the hypotheses are satisfiable, non-trivially *)
 (* a Conv1d (K = 3, 2 -> 3 channels, bias) followed by a depthwise Conv1d sharing its masker and a linear head *)
 Definition ex_net : net std :=
@@ -160,6 +276,17 @@ Proof.
   - unfold wf_std. cbn. repeat constructor; unfold Qle; cbn; auto with zarith.
   - vm_compute. repeat split; reflexivity.
 Qed.
+(* the general criterion applies to the depthwise layer (masker 0 only feeds its input) and to the linear head *)
+Example C12_example_feeds :
+  alpha_feeds (n_maskers ex_net) 0 (nth 1 (n_layers ex_net) (Build_layer (Build_std false 0 0 0) 0%nat (0, []) None)) /\
+  alpha_feeds (n_maskers ex_net) 0 (nth 2 (n_layers ex_net) (Build_layer (Build_std false 0 0 0) 0%nat (0, []) None)).
+Proof.
+  split.
+  - split; [reflexivity|]. right. split; [exists 1; split; [left; reflexivity|reflexivity]|vm_compute; reflexivity].
+  - split; [reflexivity|]. right. split; [exists 10; split; [left; reflexivity|reflexivity]|vm_compute; split; reflexivity].
+Qed.
+Example C12_example_softmax : run_sm_grad [1; 2; 3] [2; 4; 8] 2 (1 # 2) = (7, 36)%Z.
+Proof. vm_compute. reflexivity. Qed.
 Example C12_example_open :
   Qeq_bool (pit_cost std_f (Build_net [Build_masker [1; -1; 1] false] [Build_layer (Build_std false 10 1 1) 0%nat (2, [])
               (Some (Build_tmask 6 [1; -1; 1; 1; -1; 1] [1; -1; 1]))])) (10 * (3 * (2 * 6 + 1))) = true.
@@ -180,11 +307,27 @@ Print Assumptions C12_pit_grad_sign.
 Print Assumptions C12_pit_grad_zero_at_zero.
 Print Assumptions C12_pit_grad_keepalive_zero.
 Print Assumptions C12_pit_grad_frozen_zero.
+Print Assumptions C12_pit_grad_strict_criterion.
+Print Assumptions C12_mask_eff_strict.
+Print Assumptions C12_in_eff_strict.
+Print Assumptions C12_sizes_positive.
+Print Assumptions C12_pit_grad_pos.
+Print Assumptions C12_pit_grad_pos_beta.
+Print Assumptions C12_pit_grad_pos_gamma.
+Print Assumptions C12_pit_grad_pos_time_dw.
 Print Assumptions C12_pit_grad_pos_partial.
-Print Assumptions C12_pit_grad_pos_beta_partial.
-Print Assumptions C12_pit_grad_pos_gamma_partial.
+Print Assumptions C12_pit_grad_sign_gap8.
+Print Assumptions C12_pit_grad_zero_gap8.
+Print Assumptions C12_pit_grad_pos_gap8.
 Print Assumptions C12_mix_cost_affine.
 Print Assumptions C12_mix_cost_nonneg.
 Print Assumptions C12_mps_layer_cost_affine_w.
 Print Assumptions C12_mps_layer_cost_nonneg.
 Print Assumptions C12_odimo_reduction_between.
+Print Assumptions C12_sm_cost_raise.
+Print Assumptions C12_sm_grad_formula.
+Print Assumptions C12_sm_grad_sign.
+Print Assumptions C12_bit_costs_pos.
+Print Assumptions C12_mps_affine_deriv_pos.
+Print Assumptions C12_sm_bit_cost_max_raises.
+Print Assumptions C12_sm_bit_cost_min_lowers.
